@@ -123,7 +123,7 @@ func runEvict(c *ctx, idx int) *evResult {
 	p.Writers = []int{2, 4, 8, 16}[rng.IntN(4)]
 	p.Readers = []int{1, 2, 4, 8}[rng.IntN(4)]
 	p.Universe = p.Capacity*(2+rng.IntN(4)) + 16
-	p.OpsPer = c.r.N(2500, 6000)
+	p.OpsPer = c.r.N(1500, 6000)
 	p.Class = []string{"mixed", "sameseg", "collide", "wrap", "random", "seq"}[rng.IntN(6)]
 	res := &evResult{params: p}
 	// half of the universe lives in at most three segments so that their tables
